@@ -61,23 +61,30 @@ Definition consistent_keys (keys : list str) : bool :=
 
 Definition is_expansion_key (k : str) : bool := ends_with_slash k || has_byte ch_star k.
 
+(* visit for a NESTED value: since the fix 4e82ea6 the "mixed keys" rule only
+   applies to the top-level object of the field (expr.Data == json.Data) *)
 Fixpoint parse (j : json) : pj :=
   match j with
   | JNull => PNull
   | JStr s => PStr s
   | JArr l => PArr (map parse l)
   | JObj kvs =>
-      if consistent_keys (map fst kvs) then
-        let md := map (fun kv => (fst kv, parse (snd kv))) kvs in
-        PObj md (isort_by less (filter (fun e => is_expansion_key (fst e)) md))
-      else PInvalid
+      let md := map (fun kv => (fst kv, parse (snd kv))) kvs in
+      PObj md (isort_by less (filter (fun e => is_expansion_key (fst e)) md))
   | JBad => PInvalid
+  end.
+
+(* visit for the value of the field itself *)
+Definition parse_top (j : json) : pj :=
+  match j with
+  | JObj kvs => if consistent_keys (map fst kvs) then parse j else PInvalid
+  | _ => parse j
   end.
 
 (* parseImportsExportsMap returns nil for a null root: the package then has
    no map at all and the legacy algorithm runs *)
 Definition parse_root (j : json) : option pj :=
-  match parse j with PNull => None | r => Some r end.
+  match parse_top j with PNull => None | r => Some r end.
 
 Definition map_data (e : pj) : list (str * pj) :=
   match e with PObj md _ => md | _ => [] end.
@@ -114,10 +121,19 @@ Definition status_code (s : status) : Z :=
 Definition is_undefined (s : status) : bool :=
   match s with SUndefined | SUndefinedNoConditionsMatch => true | _ => false end.
 
-(* ---- findInvalidSegment: "" (valid) is returned as false ---- *)
+(* ---- findInvalidSegment / findInvalidSubpathSegment (after the fix e3ac7b5):
+   "" (valid) is returned as false.  A segment is percent-decoded first
+   (url.PathUnescape; the raw segment is used when that fails) and compared
+   with ".", ".." and, ignoring case (strings.EqualFold, modelled for ASCII),
+   "node_modules" ---- *)
 Definition node_modules_s : str := s_ "node_modules".
 Definition bad_segment (g : str) : bool :=
-  str_eqb g [ch_dot] || str_eqb g dotdot || str_eqb g node_modules_s.
+  let d := match path_unescape g with Some u => u | None => g end in
+  str_eqb d [ch_dot] || str_eqb d dotdot || str_eqb (lower_str d) node_modules_s.
+
+(* every segment is checked; a trailing empty piece is not a segment *)
+Definition find_invalid_subpath_segment (p : str) : bool :=
+  existsb bad_segment (split_on is_sep p).
 
 (* the first segment (up to the first "/" or "\") is skipped; with no
    separator at all the answer is "valid" *)
@@ -142,7 +158,7 @@ Definition target_string (pkgurl t subpath : str) (pattern internal : bool) : st
   else if find_invalid_segment t then (t, SInvalidPackageTarget)
   else
     let resolvedTarget := path_join2 pkgurl t in
-    if find_invalid_segment subpath then (subpath, SInvalidModuleSpecifier)
+    if find_invalid_subpath_segment subpath then (subpath, SInvalidModuleSpecifier)
     else if pattern then
       (replace_star resolvedTarget subpath,
        if suffixb [ch_star] resolvedTarget
